@@ -1,8 +1,259 @@
-import Quanto.Spec.C06
-import Quanto.Ops
-namespace Quanto
+/-
+C06 — every quantized tensor quanto returns reports a shape equal to that of its payload (one
+code per element), a scale that broadcasts along the axis it declares, and a qtype whose storage
+type is the payload's; moves and copies never alter codes; a dtype move changes only the scale.
 
-/-- placeholder until the invariant proofs land -/
+The invariant is `QB.wf` (`Quanto/Spec/C06b.lean`): the executable verdict `wfQBytes` on the
+metadata a model value reports, plus "arrays hold as many values as their shapes say".  The same
+verdict is evaluated by the harness on the implementation's `__tensor_flatten__` view.
+Helper lemmas: `Proofs/C06/{Basic,Moves,Ops,Steps,Bits}.lean`.
+-/
+import Proofs.C06.Steps
+import Proofs.C06.Bits
+import Proofs.C06.Examples
+namespace Quanto
+open Quanto.C06
+
+/-! ### T0 — the invariant in closed form -/
+
+/-- `QB.wf` says: one code per reported element, scalar scale when per-tensor, keepdim scale
+along the declared axis (rank ≥ 2) when per-axis.  The qtype / storage / dtype name checks of
+`wfQBytes` hold by construction for every model value (no restriction on `q.F`). -/
+theorem C06_wf_iff (q : QB) :
+    q.wf = true ↔
+      q.data.shape = q.size ∧ q.data.data.size = prod q.size ∧
+      q.scale.data.size = prod q.scale.shape ∧
+      (q.axis = none → q.scale.shape = []) ∧
+      (∀ af, q.axis = some af → 2 ≤ q.size.length ∧ q.scale.shape = keptShape q.size af) :=
+  wf_iff q
+
+/-- a per-tensor scale is a scalar -/
 theorem C06_scale_shape_per_tensor (size : List Nat) : scaleShapeFor size none = [[]] := rfl
+
+/-- the keepdim shape of `C06_wf_iff`, spelled out -/
+theorem C06_keepdim_shape (size : List Nat) (h : 2 ≤ size.length) :
+    keptShape size true = size.headD 0 :: List.replicate (size.length - 1) 1 ∧
+    keptShape size false = List.replicate (size.length - 1) 1 ++ [size.getLastD 0] := by
+  have h1 := scaleShapeFor_some size true h
+  have h2 := scaleShapeFor_some size false h
+  simp only [scaleShapeFor, List.cons.injEq, and_true] at h1 h2
+  exact ⟨h1.symm, h2.symm⟩
+
+/-- the reported qtype is a known 8-bit qtype whose storage type is the payload's dtype -/
+theorem C06_qtype_storage (q : QB) :
+    ∃ t, QType.ofName q.meta.qtype = some t ∧ t.bits = 8 ∧ q.meta.dataDtype = t.storage ∧
+      t.qt = q.Q ∧ q.meta.outerDtype = q.meta.scaleDtype := by
+  cases hQ : q.Q
+  · exact ⟨.qint8, by simp only [QB.meta, hQ]; decide, rfl, by simp only [QB.meta, hQ]; rfl, rfl, rfl⟩
+  · exact ⟨.qfloat8_e4m3fn, by simp only [QB.meta, hQ]; decide, rfl, by simp only [QB.meta, hQ]; rfl, rfl, rfl⟩
+  · exact ⟨.qfloat8_e5m2, by simp only [QB.meta, hQ]; decide, rfl, by simp only [QB.meta, hQ]; rfl, rfl, rfl⟩
+
+/-- a broadcastable scale: dequantization of a well-formed value never fails on shapes -/
+theorem C06_scale_broadcasts (q : QB) (hq : q.wf = true) :
+    bcastShape q.data.shape q.scale.shape = some q.size := by
+  rw [wf_iff] at hq
+  obtain ⟨h1, -, -, h4, h5⟩ := hq
+  rw [h1]
+  cases hax : q.axis with
+  | none => rw [h4 hax]; exact bcastShape_scalar _
+  | some af => rw [(h5 af hax).2]; exact bcastShape_keptShape _ _
+
+/-! ### T1 — quantization -/
+
+/-- `SymmetricQuantizer.forward` returns a well-formed tensor whenever it returns -/
+theorem C06_quantize_wf (F : Fmt) (Q : QT) (x : T FV) (axis : Option Int) (scale : T FV) (r : QBytes)
+    (h : symQuantize F Q x axis scale = .ok r) (hs : scale.data.size = prod scale.shape) :
+    (QB.mk F Q r.axis r.size r.data r.scale).wf = true ∧ r.size = x.shape ∧ r.scale = scale :=
+  ⟨quantize_wf h hs, (symQuantize_spec h).1, (symQuantize_spec h).2.1⟩
+
+/-! ### T2 — movement ops (view, permute, transpose, select, slice, unsqueeze, expand) -/
+
+/-- per-tensor: the codes are moved (not altered), the scale is untouched, the reported size is
+the moved payload's shape -/
+theorem C06_move_wf (m : MoveOp) (q r : QB) (hq : q.wf = true) (h : qbMove m q = .qb r) :
+    r.wf = true ∧ q.axis = none ∧ r.axis = none ∧ m.apply q.data = some r.data ∧
+      r.scale = q.scale ∧ r.F = q.F ∧ r.Q = q.Q := by
+  obtain ⟨h1, h2, h3, h4, h5, h6, h7⟩ := move_wf hq h
+  exact ⟨h1, h3, h2, h7, h4, h5, h6⟩
+
+/-- per-axis: a movement op never returns a quantized tensor (it dequantizes or raises) -/
+theorem C06_move_per_axis_not_quantized (m : MoveOp) (q : QB) (hq : q.axis ≠ none) :
+    match qbMove m q with | .qb _ => False | _ => True :=
+  move_per_axis hq
+
+/-! ### T3 — `aten.t` -/
+
+theorem C06_t_wf (q r : QB) (hq : q.wf = true) (h : qbT q = .qb r) :
+    r.wf = true ∧ r.axis = q.axis.map (!·) ∧ r.size = q.size.reverse ∧
+      q.data.transpose? 0 1 = some r.data ∧ r.F = q.F ∧ r.Q = q.Q := by
+  obtain ⟨h1, h2, h3, h4, h5, h6⟩ := t_wf hq h
+  exact ⟨h1, h4, h5, h6, h2, h3⟩
+
+/-! ### T4 — elementwise ops, copies, dtype moves -/
+
+theorem C06_elementwise_wf (q r : QB) (k : Rat) (hq : q.wf = true)
+    (h : qbNeg q = .qb r ∨ qbRelu q = .qb r ∨ qbMulScalar q k = .qb r ∨ qbDivScalar q k = .qb r ∨
+      qbDetach q = .qb r ∨ qbClone q = .qb r) :
+    r.wf = true ∧ r.size = q.size ∧ r.axis = q.axis ∧ r.F = q.F ∧ r.Q = q.Q := by
+  rcases h with h | h | h | h | h | h
+  · obtain ⟨h1, h2, h3, -, h5, h6⟩ := neg_wf hq h; exact ⟨h1, h2, h3, h5, h6⟩
+  · obtain ⟨h1, h2, h3, -, h5, h6⟩ := relu_wf hq h; exact ⟨h1, h2, h3, h5, h6⟩
+  · obtain ⟨h1, h2, h3, -, h5, h6⟩ := mulScalar_wf hq h; exact ⟨h1, h2, h3, h5, h6⟩
+  · obtain ⟨h1, h2, h3, -, h5, h6⟩ := divScalar_wf hq h; exact ⟨h1, h2, h3, h5, h6⟩
+  · cases h; exact ⟨hq, rfl, rfl, rfl, rfl⟩
+  · cases h; exact ⟨hq, rfl, rfl, rfl, rfl⟩
+
+/-- `neg` / `relu` act on the codes only; scalar `mul` / `div` act on the scale only -/
+theorem C06_elementwise_parts (q r : QB) (k : Rat) (hq : q.wf = true) :
+    ((qbNeg q = .qb r ∨ qbRelu q = .qb r) → r.scale = q.scale) ∧
+    ((qbMulScalar q k = .qb r ∨ qbDivScalar q k = .qb r) → r.data = q.data) := by
+  refine ⟨fun h => ?_, fun h => ?_⟩
+  · rcases h with h | h
+    · exact (neg_wf hq h).2.2.2.1
+    · exact (relu_wf hq h).2.2.2.1
+  · rcases h with h | h
+    · exact (mulScalar_wf hq h).2.2.2.1
+    · exact (divScalar_wf hq h).2.2.2.1
+
+/-- a dtype move changes only the dtype (and hence the rounding) of the scale -/
+theorem C06_to_dtype (q : QB) (F' : Fmt) (hq : q.wf = true) :
+    ∃ r, qbToDtype q F' = .qb r ∧ r.wf = true ∧ r.data = q.data ∧ r.Q = q.Q ∧ r.axis = q.axis ∧
+      r.size = q.size ∧ r.F = F' ∧ r.scale = q.scale.map F'.rndV :=
+  toDtype_wf F' hq
+
+/-- copies return the very same value -/
+theorem C06_moves_keep_codes (q : QB) : qbDetach q = .qb q ∧ qbClone q = .qb q := ⟨rfl, rfl⟩
+
+/-! ### T5 — cat / stack / split -/
+
+theorem C06_cat_stack_split_wf (a b : QB) (dim : Int) (ha : a.wf = true) :
+    (∀ r, qbCat [.qb a, .qb b] dim = .qb r →
+      r.wf = true ∧ T.cat? [a.data, b.data] dim = some r.data ∧ r.scale = a.scale) ∧
+    (∀ fx r, qbStack fx [.qb a, .qb b] dim = .qb r →
+      r.wf = true ∧ T.stack? [a.data, b.data] dim = some r.data ∧ r.scale = a.scale) ∧
+    (∀ sz l, qbSplit true a sz dim = .listV l → ∀ v ∈ l, v.wf = true) := by
+  refine ⟨fun r h => ?_, fun fx r h => ?_, fun sz l h => split_wf ha h⟩
+  · obtain ⟨h1, -, h3, -, -, h6⟩ := cat_wf ha h; exact ⟨h1, h6, h3⟩
+  · obtain ⟨h1, -, h3, -, -, h6⟩ := stack_wf ha h; exact ⟨h1, h6, h3⟩
+
+/-- the original `split` (chunks re-wrapped with the size of the un-split input) returned
+ill-formed tensors: a `4 × 2` per-tensor value split in two along dim 0 -/
+theorem C06_counterexample_split_unfixed :
+    ∃ q l, q.wf = true ∧ qbSplit false q 2 0 = .listV l ∧ ∃ v ∈ l, v.wf = false := by
+  obtain ⟨l, h1, h2⟩ := split_unfixed_counterexample
+  exact ⟨qSplit, l, qSplit_wf, h1, h2⟩
+
+/-! ### T6 — re-quantized results (softmax, where) -/
+
+theorem C06_requant_wf (F : Fmt) (Q : QT) (x : T FV) (scale : FV) (r : QB)
+    (h : requant F Q x scale = .qb r) :
+    r.wf = true ∧ r.axis = none ∧ r.size = x.shape ∧ r.F = F ∧ r.Q = Q :=
+  requant_wf h
+
+theorem C06_softmax_where_wf (q r : QB) (oracle : T FV)
+    (h : qbSoftmax q oracle = .qb r ∨ qbWhere q oracle = .qb r) :
+    r.wf = true ∧ r.size = oracle.shape ∧ r.F = q.F ∧ r.Q = q.Q := by
+  rcases h with h | h
+  · obtain ⟨h1, -, h3, h4, h5⟩ := requant_wf h; exact ⟨h1, h3, h4, h5⟩
+  · unfold qbWhere at h
+    split at h
+    · obtain ⟨h1, -, h3, h4, h5⟩ := requant_wf h; exact ⟨h1, h3, h4, h5⟩
+    · cases h
+
+/-! ### T7 — the invariant along programs -/
+
+/-- one intercepted op: every quantized tensor in the result is well-formed -/
+theorem C06_step_wf (op : QOp) (q : QB) (hq : q.wf = true) : (op.run q).wf = true :=
+  step_wf op hq
+
+/-- every result of a program of intercepted ops run on a well-formed tensor is well-formed -/
+theorem C06_reachable (ops : List QOp) (q : QB) (hq : q.wf = true) :
+    ∀ v ∈ trace ops q, v.wf = true :=
+  trace_wf ops hq
+
+/-- the same for any choice of the quantized component (of a `split`) fed to the next op -/
+theorem C06_reachable_any (q0 q : QB) (h0 : q0.wf = true) (h : Reach q0 q) : q.wf = true :=
+  reach_wf h0 h
+
+/-! ### T8 — 2/4-bit tensors -/
+
+/-- `quantize_weight` for qint2 / qint4 (any rank, grouped or not): the codes have the grouped
+shape (or the input shape), scale and zero-point its keepdim shape, and the packed payload
+`ceil(rows · bits / 8)` rows; all arrays hold as many values as their shapes say -/
+theorem C06_affine_quantize_wf (F : Fmt) (bits : Nat) (ext : Bool) (x : T FV) (af : Bool)
+    (gs : Option Nat) (q : QBits) (hb : bits = 2 ∨ bits = 4)
+    (h : affQuantize F bits ext x af gs = .ok q) :
+    wfQBits (QBits.meta F q) = .ok ∧
+      q.data.data.size = prod q.data.shape ∧ q.scale.data.size = prod q.scale.shape ∧
+      q.zero.data.size = prod q.zero.shape ∧
+      (packWeights q.bits q.data).data.size = prod (packWeights q.bits q.data).shape :=
+  affQuantize_wf hb h
+
+/-- the shapes behind `C06_affine_quantize_wf` -/
+theorem C06_affine_quantize_shapes (F : Fmt) (bits : Nat) (ext : Bool) (x : T FV) (af : Bool)
+    (gs : Option Nat) (q : QBits) (h : affQuantize F bits ext x af gs = .ok q) :
+    ∃ cs, codeShape x.shape af gs = some cs ∧ q.size = x.shape ∧ q.data.shape = cs ∧
+      q.scale.shape = keptShape cs af ∧ q.zero.shape = keptShape cs af ∧ prod cs = prod x.shape := by
+  obtain ⟨cs, h0, -, -, -, h4, h5, -, h7, -, h9, -⟩ := affQuantize_spec h
+  refine ⟨cs, h0, h4, h5, h7, h9, ?_⟩
+  cases gs with
+  | none => cases h0; rfl
+  | some g => exact C03_group_numel _ _ _ _ h0
+
+/-! ### non-vacuity -/
+
+/-- a well-formed per-tensor float16 / qint8 value of size `[2, 3]` -/
+example : exPerTensor.wf = true := by
+  rw [C06_wf_iff]; exact ⟨rfl, rfl, rfl, fun _ => rfl, fun af h => by cases h⟩
+
+/-- T2 on a permute of that value: a quantized result of size `[3, 2]`, well-formed -/
+example : ∃ r, qbMove (.permute [1, 0]) exPerTensor = .qb r ∧ r.wf = true ∧ r.size = [3, 2] := by
+  have hq : exPerTensor.wf = true := by
+    rw [C06_wf_iff]; exact ⟨rfl, rfl, rfl, fun _ => rfl, fun af h => by cases h⟩
+  exact ⟨_, rfl, (C06_move_wf (.permute [1, 0]) exPerTensor _ hq rfl).1, rfl⟩
+
+/-- a well-formed per-axis value (axis 0) and its transpose (axis -1) -/
+example : ∃ r, qbT exPerAxis = .qb r ∧
+    r.wf = true ∧ r.axis = some false ∧ r.size = [3, 2] ∧ r.scale.shape = [1, 2] := by
+  have hq : exPerAxis.wf = true := by
+    rw [C06_wf_iff]
+    refine ⟨rfl, rfl, rfl, fun h => (by cases h), fun af h => ?_⟩
+    cases h; exact ⟨by decide, rfl⟩
+  exact ⟨_, rfl, (C06_t_wf exPerAxis _ hq rfl).1, rfl, rfl, rfl⟩
+
+/-- T1 on a concrete per-axis call: `symQuantize` succeeds and the result is well-formed -/
+example : ∃ r, symQuantize f32 .qint8 exInput (some 0) exScale = .ok r ∧
+    (QB.mk f32 .qint8 r.axis r.size r.data r.scale).wf = true ∧ r.axis = some true := by
+  have hv : symValidate [2, 2] (some 0) [2, 1] = .ok (some true) := by decide
+  have hb : bcastShape [2, 2] [2, 1] = some [2, 2] := by decide
+  cases h : symQuantize f32 .qint8 exInput (some 0) exScale with
+  | error e => simp [symQuantize, exInput, exScale, hv, hb] at h
+  | ok r =>
+    refine ⟨r, rfl, (C06_quantize_wf f32 .qint8 _ (some 0) _ _ h rfl).1, ?_⟩
+    simp [symQuantize, exInput, exScale, hv, hb] at h
+    rw [← h]
+
+/-- T8 on a concrete grouped call -/
+example : ∃ q, affQuantize f32 4 true exWeight true (some 2) = .ok q ∧
+    wfQBits (QBits.meta f32 q) = .ok ∧ q.data.shape = [4, 2] := by
+  have hg : groupShape [2, 4] true 2 = some [4, 2] := by decide
+  have hk : bcastShape [4, 2] (keptShape [4, 2] true) = some [4, 2] := bcastShape_keptShape _ _
+  cases h : affQuantize f32 4 true exWeight true (some 2) with
+  | error e =>
+    simp [affQuantize, affQuantizeWith, group, exWeight, hg, T.gather, T.ofFn, maxOptimize,
+      reduceSlices, hk] at h
+  | ok q =>
+    obtain ⟨cs, h0, -, h5, -⟩ := C06_affine_quantize_shapes _ _ _ _ _ _ _ h
+    have hc : codeShape exWeight.shape true (some 2) = some [4, 2] := hg
+    rw [hc] at h0; cases h0
+    exact ⟨q, rfl, (C06_affine_quantize_wf _ _ _ _ _ _ _ (Or.inr rfl) h).1, h5⟩
+
+/-- T7 on a concrete program: five results (dtype move, permute, neg, split, t), all well-formed -/
+example :
+    (trace [.toDtype f32, .move (.permute [1, 0]), .neg, .split 1 0, .t] exPerTensor).length = 5 ∧
+    ∀ v ∈ trace [.toDtype f32, .move (.permute [1, 0]), .neg, .split 1 0, .t] exPerTensor,
+      v.wf = true := by
+  refine ⟨by decide +kernel, C06_reachable _ _ ?_⟩
+  rw [C06_wf_iff]; exact ⟨rfl, rfl, rfl, fun _ => rfl, fun af h => by cases h⟩
 
 end Quanto
